@@ -148,6 +148,18 @@ func c01Run(c c01Case, items []rdbgen.Item) string {
 			return fail("footer", -1, "end-of-file checksum of an intact file rejected: "+err.Error())
 		}
 	}
+	// the RDB is followed by the live command stream on the same reader: after the end-of-file
+	// step exactly the file's bytes must have been taken from the source, not one less or more
+	left := -1
+	switch x := rd.(type) {
+	case *bytes.Reader:
+		left = x.Len()
+	case *oneByteReader:
+		left = len(x.b) - x.pos
+	}
+	if left > 0 {
+		return fail("bytes-left-unread", -1, fmt.Sprintf("after the last record and the end-of-file step %d bytes of the RDB (version %d) are still unread: they would be parsed as commands", left, c.Version))
+	}
 	// the records are queued for the workers while the parser goes on: what was delivered earlier
 	// must still be what it was once the whole file has been read
 	for i, e := range held {
